@@ -712,7 +712,7 @@ def translate_one(lean_name, region, cpp, sel, kind):
         raise TranslateError(f"{rel}:{cpp}: the overloads {[x[1]['line'] for x in rendered]} differ")
     fn = rendered[0][1]
     doc = f"/-- {rel}:{', '.join(str(x[1]['line']) for x in rendered)}  `{cpp}({' '.join(fn['params'].split())}) {fn['quals']}` -/"
-    return doc + "\n" + rendered[0][0], dict(lean=lean_name, file=rel, lines=[x[1]["line"] for x in rendered], cpp=cpp, asserts=len(rendered[0][2].asserts),
+    return doc + "\n" + rendered[0][0], dict(lean=lean_name, file=rel, lines=[x[1]["line"] for x in rendered], extents=[[x[1]["line"], x[1]["end_line"]] for x in rendered], cpp=cpp, asserts=len(rendered[0][2].asserts),
                                              untranslated_asserts=rendered[0][2].untranslated, result=rendered[0][3])
 
 
